@@ -128,14 +128,58 @@ def forbidden_scan():
 
 
 def build_coq():
-    """Full .vo build of the development (serialised with flock). Gen/ManagerGen.v is first regenerated from the
-    CURRENT source of the repository by the translator (harness/pytrans.py). Returns the tail of the build log."""
+    """Full .vo build of the development (serialised with a file lock). Gen/*.v is first regenerated from the CURRENT
+    source of the repository by the translators (harness/pytrans*.py). Returns the tail of the build log."""
+    import fcntl
     gen = os.path.join(os.path.dirname(os.path.abspath(__file__)), 'pytrans.py')
-    cmd = ('flock %s/.buildlock sh -c "cd %s && VERIF_REPO=%s python3 %s; '
-           'coq_makefile -f _CoqProject %s -o Makefile >/dev/null && '
-           'timeout 1500 make -j16 -k 2>&1 | tail -40"' % (COQ, COQ, REPO, gen, ' '.join(coq_sources())))
-    rc, out = sh(cmd, timeout=1700)
-    return out
+    with open(os.path.join(COQ, '.buildlock'), 'w') as lock:
+        fcntl.flock(lock, fcntl.LOCK_EX)
+        try:
+            rc0, gen_out = sh('cd %s && VERIF_REPO=%s python3 %s 2>&1' % (COQ, REPO, gen), timeout=300)
+            cmd = ('cd %s && coq_makefile -f _CoqProject %s -o Makefile >/dev/null && '
+                   'timeout 1500 make -j16 -k 2>&1 | tail -40' % (COQ, ' '.join(coq_sources())))
+            rc, out = sh(cmd, timeout=1700)
+            invalidate_stale()
+        finally:
+            fcntl.flock(lock, fcntl.LOCK_UN)
+    return (gen_out or '') + out
+
+
+def invalidate_stale():
+    """A file that no longer compiles keeps the .vo of its last successful compilation, and so does everything that
+    depends on it: remove the compiled form of every source that is not up to date and of everything that
+    (transitively) requires it, so that a broken obligation can never be discharged from a stale object file."""
+    srcs = coq_sources()
+    deps = {}
+    for rel in srcs:
+        mod = rel[:-2].replace('/', '.')
+        txt = open(os.path.join(COQ, rel)).read()
+        req = set()
+        for m in re.finditer(r'From\s+Continuum\s+Require\s+(?:Import|Export)\s+([^.]*(?:\.[A-Za-z][^.\s]*)*?)\.\s', txt + ' '):
+            pass
+        for stmt in re.findall(r'From\s+Continuum\s+Require\s+(?:Import|Export)\s+(.*?)\.\s*\n', txt, re.S):
+            for name in stmt.split():
+                req.add(name.strip())
+        deps[mod] = req
+    stale = set()
+    for rel in srcs:
+        if not vo_fresh(rel):
+            stale.add(rel[:-2].replace('/', '.'))
+    changed = True
+    while changed:
+        changed = False
+        for mod, req in deps.items():
+            if mod not in stale and req & stale:
+                stale.add(mod)
+                changed = True
+    for mod in stale:
+        base = os.path.join(COQ, mod.replace('.', '/'))
+        for ext in ('.vo', '.vok', '.vos', '.glob'):
+            try:
+                os.remove(base + ext)
+            except OSError:
+                pass
+    return stale
 
 
 def vo_exists(rel):
